@@ -55,6 +55,9 @@ CHECKS['C13']['category'] = 'fault_enumeration'
 CHECKS['C16'] = comp('BridgeContract.tla', 'Every source length 0..6 with a failure at every position for each source kind, plus thousands of random sources with producer '
     'step durations and consumer delays under seeded line-level schedules of the producer thread against the consuming loop (controlled executor, queue and futures); TLC validates '
     'C16_Sequence, C16_ErrorAfterN, C16_ForeignException, C16_LoopNotBlocked (ticker beats in virtual time) and C16_NoThreadLeft.')
+CHECKS['C17'] = comp('CrossLoopContract.tla', '1..3 caller threads with their own loops target one loop that is idle / run by loop_in_thread / closed / their own, with coroutines, '
+    'tasks and futures that return, raise or sleep, under seeded line-level schedules (controlled Lock, executor, futures, sleep(0) spin); TLC validates C17_Transparent, C17_OnTarget, '
+    'C17_ClosedRaises, C17_OneRunner, C17_StartSync/StopSync and C17_Completes. One genuine defect (concurrent ensure_aw on an idle loop strands a call) is a listed known finding.')
 PENDING_REASON = 'check not built yet in this session (planned: see DESIGN.md §5); not a claim that the technique cannot apply'
 PENDING = {('C%02d' % i): PENDING_REASON for i in range(1, 21)}
 ENGINES = [
